@@ -181,6 +181,18 @@ def run(ctx):
                  what="child process under strace, two or three faults in one WriteFileWithMode: {callback error, panic, "
                       "write, close, rename} x {close(2) of the deferred Close, unlink of the cleanup, both}; expected "
                       "output from Safe.writeFileMulti (until this round a harness-judged oracle)")
+        # lines whose injection / kill did not land on the intended call of the library in three attempts (the Go runtime's own
+        # calls shift strace's per-name counters under load), or that timed out: skipped by the harness, counted here, never reported
+        inc = []
+        try:
+            inc = [l.rstrip("\n") for l in open(os.path.join(ctx.work, "c14_inconclusive.log"))]
+        except OSError:
+            pass
+        ctx.extra["kill_inconclusive"] = {"count": len(inc), "examples": [l[-200:] for l in inc[:5]]}
+        strace_lines = sum(v for k, v in ctx.kinds.items() if k.split(":")[0] in ("trace", "hist", "multi"))
+        if len(inc) > max(40, strace_lines // 4):
+            ctx.assumptions.append("%d of %d strace lines were inconclusive in this run (injection did not land / time-out under "
+                                   "load) and were skipped: the strace streams carried less than usual" % (len(inc), strace_lines))
         ctx.extra["trace_enumeration"] = {
             "exhaustive": True,
             "runs": ctx.evals - before,
